@@ -111,12 +111,12 @@ const (
 )
 
 type event struct {
-	kind  int
-	addr  string
-	id    uint64
-	a, b  uint64
+	kind                  int
+	addr                  string
+	id                    uint64
+	a, b                  uint64
 	afterShutdownReturned bool
-	reason string
+	reason                string
 }
 
 var (
@@ -179,7 +179,7 @@ func worldReset() {
 	runErr = nil
 	actorsDone = [64]bool{}
 	nActorsG = 0
-	dialRefused, peerCloses, peerAborts, peerStalls, badMsgs, garbageMsgs, streamCuts = 0, 0, 0, 0, 0, 0, 0
+	dialRefused, peerCloses, peerAborts, peerStalls, badMsgs, garbageMsgs, streamCuts, listenFailed = 0, 0, 0, 0, 0, 0, 0, 0
 }
 
 var (
@@ -202,7 +202,7 @@ func bump(p *int) { *p++ }
 //go:norace
 func readInt(p *int) int { return *p }
 
-var dialRefused, peerCloses, peerAborts, peerStalls, badMsgs, garbageMsgs, streamCuts int
+var dialRefused, peerCloses, peerAborts, peerStalls, badMsgs, garbageMsgs, streamCuts, listenFailed int
 
 //go:norace
 func setFlag(p *bool) { *p = true }
@@ -253,12 +253,12 @@ type opResult struct {
 }
 
 const (
-	psWrite = iota // write n messages in one burst
-	psWriteSplit   // write a message in two pieces with a yield in between
-	psRead         // read whatever the pool wrote
-	psIdle         // do nothing (stall)
-	psBadMsg       // write a message the handler refuses
-	psGarbage      // write a frame with an unknown message id
+	psWrite      = iota // write n messages in one burst
+	psWriteSplit        // write a message in two pieces with a yield in between
+	psRead              // read whatever the pool wrote
+	psIdle              // do nothing (stall)
+	psBadMsg            // write a message the handler refuses
+	psGarbage           // write a frame with an unknown message id
 	psClose
 	psAbort
 	// framing profile
@@ -273,10 +273,10 @@ const (
 )
 
 type peerStep struct {
-	kind int
-	n    int
-	cuts []int // psStream: relative cut positions in per-mille of the byte string (or, with boundary set, frame*16 + offset+3)
-	pad  []int // psStream: padding length per message
+	kind     int
+	n        int
+	cuts     []int // psStream: relative cut positions in per-mille of the byte string (or, with boundary set, frame*16 + offset+3)
+	pad      []int // psStream: padding length per message
 	boundary bool
 }
 
@@ -295,6 +295,7 @@ type scenario struct {
 	earlyStart   bool // actors may run before the pool is listening
 	decisions    int
 	framing      bool // C22 profile
+	listenFails  bool // the listen call of Run fails (port in use): Run returns an error, Shutdown must still return
 }
 
 var (
@@ -455,6 +456,10 @@ func genScenario(c *sim.Ctx) *scenario {
 	}
 	sc.shutdownWait = t.Range("sdwait", 0, 30)
 	sc.earlyStart = t.Chance("early", 1, 8)
+	sc.listenFails = t.Chance("listen-fails", 1, 25)
+	if sc.listenFails {
+		sc.earlyStart = true // nothing will ever be accepted: the actors must not wait for it
+	}
 	sc.decisions = 150 + t.Int("decisions", 250)
 	if c.Tier == "thorough" {
 		sc.decisions += 300
@@ -479,16 +484,16 @@ type world struct {
 }
 
 type peerState struct {
-	goodSent int    // well-formed messages written before any malformed frame (framing profile)
-	bad      string // disconnect reason the first malformed frame must produce ("" = none sent)
-	cleanClose bool // the peer closed after its last well-formed message
-	conn     *simConn
-	sent     uint32
-	rx       []byte
-	frames   int
-	garbled  string
-	done     bool
-	gotEOF   bool
+	goodSent   int    // well-formed messages written before any malformed frame (framing profile)
+	bad        string // disconnect reason the first malformed frame must produce ("" = none sent)
+	cleanClose bool   // the peer closed after its last well-formed message
+	conn       *simConn
+	sent       uint32
+	rx         []byte
+	frames     int
+	garbled    string
+	done       bool
+	gotEOF     bool
 }
 
 func (w *world) lock()   { w.connsMu <- struct{}{} }
@@ -939,6 +944,10 @@ func runPool(c *sim.Ctx) {
 	gnet.VerifSpin = func(name string) { Yield("spin") }
 	gnet.VerifListen = func(network, address string) (net.Listener, error) {
 		Yield("listen")
+		if sc.listenFails {
+			bump(&listenFailed)
+			return nil, errors.New("listen tcp " + address + ": bind: address already in use")
+		}
 		return w.ln, nil
 	}
 	gnet.VerifDialTimeout = w.dial
@@ -1536,6 +1545,7 @@ func (w *world) account() {
 	}
 	c.CountN("conns.created", int64(len(w.conns)))
 	c.CountN("fault.dial_refused", int64(readInt(&dialRefused)))
+	c.CountN("fault.listen_fails", int64(readInt(&listenFailed)))
 	c.CountN("fault.peer_close", int64(readInt(&peerCloses)))
 	c.CountN("fault.peer_abort", int64(readInt(&peerAborts)))
 	c.CountN("fault.peer_stall", int64(readInt(&peerStalls)))
